@@ -3,7 +3,8 @@
   * the operator -> function table: the `match op { .. }` of term() taken verbatim
     (cfg-disabled arms removed by evaluating the crate's default feature set);
   * evaluation of one grammar level is a left fold in source order (loop of term()).
-The level structure l1..l7 is nom parser code and is out of reach."""
+The level structure (formula, l1..l7, factor, prefix operators, parentheses, operator classes) is verified by
+units/vC02g.py on the verbatim function bodies against assumed contracts of nom's combinators."""
 import os, re
 import vlib
 from vlib import read_repo, extract_fn, VerusUnit, AnchorLost, match_brace, find_all_code, find_code, _skip_trivia
@@ -358,9 +359,18 @@ def plan(plan, tier, seed):
         unit(plan)
     except AnchorLost as e:
         plan.anchor_errors.append(("C02.term.*", str(e)))
-    plan.functions += ["src/interpreter/src/expressions.rs: term() — operator dispatch table and fold loop"]
+    from units import vC02g
+    try:
+        vC02g.units(plan)
+    except AnchorLost as e:
+        plan.anchor_errors.append(("C02.grammar.*", str(e)))
+    plan.dropped.append(vC02g.__doc__.strip())
+    plan.functions += ["src/interpreter/src/expressions.rs: term() — operator dispatch table and fold loop",
+                       "src/syntax/src/expressions.rs: formula, l1, l2, l3, l4, l5, l6, l7, factor, parenthetical_term, negate_factor, not_factor, logic_operator, comparison_operator, add_sub_operator, mul_div_operator, matrix_operator, power_operator"]
     plan.trusted += ["Verus / Z3"]
     plan.assumptions += ["nom::multi::many0(pair(op, operand)) collects matches in source order (assumed contract of the dependency)",
                          "the fold obligation is about a transcription of the loop (index loop over the same list) guarded by an anchor check of the loop body's statement sequence"]
-    plan.undecided_clauses += ["C02: which operators belong to which grammar level, the order of the levels l1..l7, unary minus/not/transpose binding and parenthesis override are parser code (nom closures), out of reach of both verifiers (P10) — swapping two grammar levels is NOT detected by this check"]
+    plan.assumptions += ["nom's many0 / pair / cut / alt / opt and mech_syntax::alt_best behave as documented: they are named, uninterpreted functions in contracts/C02/grammodel.rs; every leaf parser (token, literal, structure, ..) is an arbitrary function of (its name, the input)",
+                         "a parser is identified by the name of the function that implements it; the order of the alternatives inside one operator class is abstracted (a class is the set of its tokens)"]
+    plan.undecided_clauses += ["C02: that the token parsers recognise the spellings they are named after (`+`, `*`, `^`, ..), whitespace rules around operators, the alternatives tried before formula() in expression() (range, match, comprehensions), and the mechanical composition grammar structure + operator table + left fold => value of the parenthesised formula (argued in DESIGN.md, not machine-checked)"]
     plan.level = "proof"
